@@ -671,6 +671,12 @@ def Ctx.fgTopicC (c : Ctx) (sid : Sid) (tn : TName) : Ctx :=
       let p := t.pud uid
       c.putLive (t.setPud uid { p with online := p.online + 1 })
 
+/-- Hub.topicsStateForUser (hub.go:347-363): the loaded p2p topics of the user and the loaded group topics the user owns become
+read-only (the account was suspended) or writable again -/
+def Ctx.opUserState (c : Ctx) (u : Uid) (susp : Bool) : Ctx :=
+  { c with w := { c.w with live := c.w.live.map (fun t =>
+      if (isP2PKey t.name ∧ (t.pud? u).isSome) ∨ (u ≠ "" ∧ t.owner = u) then { t with readOnly := susp } else t) } }
+
 def World.isChanTopic (w : World) (tn : TName) : Bool :=
   match w.live? tn with
   | some t => t.isChan
